@@ -119,6 +119,11 @@ enum Op {
     Sigmask(u8, Vec<usize>),
     /// soft RLIMIT_NOFILE
     Setrlimit(u32),
+    /// marker: from here on the process is unprivileged (the worker dropped its
+    /// privileges when it started)
+    DropPriv,
+    /// (by the harness, not a System call) set the permission bits
+    Chmod(String, u32),
     /// setpgid(0, 0)
     Setpgid0,
     Kill(Target, usize),
@@ -396,6 +401,8 @@ impl Op {
             Op::Caught => "OCaught".into(),
             Op::Sigmask(h, l) => format!("(OSigmask {} {})", coq::n(*h as u64), sig_list_coq(l)),
             Op::Setrlimit(n) => format!("(OSetrlimit {})", coq::n(*n as u64)),
+            Op::DropPriv => "ODropPriv".into(),
+            Op::Chmod(p, m) => format!("(OChmod {} {})", coq::s(p), coq::n(*m as u64)),
             Op::Setpgid0 => "OSetpgid0".into(),
             Op::Kill(tg, s) => format!("(OKill {} {})", tg.coq(), coq::n(*s as u64)),
             Op::Fork => "OFork".into(),
@@ -431,6 +438,8 @@ impl Op {
                 l.iter().map(|s| SIGS[*s]).collect::<Vec<_>>()
             ),
             Op::Setrlimit(n) => format!("setrlimit(NOFILE,{n})"),
+            Op::DropPriv => "drop-privileges".into(),
+            Op::Chmod(p, m) => format!("chmod({p:?},{:o})", m),
             Op::Setpgid0 => "setpgid(0,0)".into(),
             Op::Kill(tg, s) => format!("kill({:?},{})", tg, SIGS[*s]),
             Op::Fork => "fork{".into(),
@@ -456,6 +465,7 @@ impl Op {
             Op::Getfd(..) | Op::Setfd(..) | Op::Access(..) => "fcntl",
             Op::Sigaction(..) | Op::GetSigaction(..) | Op::Raise(..) | Op::Caught | Op::Sigmask(..) => "signal",
             Op::Setrlimit(..) => "setrlimit",
+            Op::DropPriv | Op::Chmod(..) => "perm",
             Op::Setpgid0 | Op::Kill(..) => "kill",
             Op::Fork | Op::Exit => "fork",
         }
@@ -662,9 +672,11 @@ trait SysOps:
     + Fork + Wait + Exit + yash_env::system::Sigaction + yash_env::system::Sigmask
     + yash_env::system::CaughtSignals + yash_env::system::SendSignal
     + yash_env::system::resource::GetRlimit + yash_env::system::resource::SetRlimit
-    + yash_env::system::GetPid + yash_env::system::SetPgid + Sized + 'static
+    + yash_env::system::GetPid + yash_env::system::SetPgid + yash_env::system::GetUid + Sized + 'static
 {
     const REAL: bool;
+    /// chmod by the harness (the System traits have none); `path` as the system sees it
+    fn harness_chmod(&self, path: &str, mode: u32) -> Result<(), Errno>;
     /// the numbers of SIGS on this system
     fn sig(i: usize) -> yash_env::signal::Number {
         [Self::SIGUSR1, Self::SIGUSR2, Self::SIGTERM, Self::SIGINT, Self::SIGHUP, Self::SIGTSTP][i]
@@ -683,9 +695,20 @@ fn set_nofile<S: SysOps>(sys: &S, n: Option<u32>) -> Result<(), Errno> {
 }
 impl SysOps for VirtualSystem {
     const REAL: bool = false;
+    fn harness_chmod(&self, path: &str, mode: u32) -> Result<(), Errno> {
+        let p = yash_env::path::Path::new(path);
+        let abs = if p.is_absolute() { p.to_path_buf() } else { self.current_process().getcwd().join(p) };
+        let inode = self.state.borrow().file_system.get(&abs)?;
+        inode.borrow_mut().permissions = Mode::from_bits_retain(mode as _);
+        Ok(())
+    }
 }
 impl SysOps for RealSystem {
     const REAL: bool = true;
+    fn harness_chmod(&self, path: &str, mode: u32) -> Result<(), Errno> {
+        std::fs::set_permissions(path, std::fs::Permissions::from_mode(mode))
+            .map_err(|e| Errno(e.raw_os_error().unwrap_or(0)))
+    }
 }
 
 /// Where results go: a vector (same address space) or a pipe (the real
@@ -932,6 +955,19 @@ async fn exec_op<S: SysOps>(sys: &S, op: &Op, root: &str, depth: usize) -> Res {
             Ok(()) => Res::Unit,
             Err(x) => e(x),
         },
+        Op::DropPriv => {
+            if S::REAL && sys.geteuid().0 == 0 {
+                harness_error("a permission sequence is running on a privileged real-side worker");
+            }
+            Res::Unit
+        }
+        Op::Chmod(p, m) => {
+            let path = pth(p, root).into_string().unwrap();
+            match sys.harness_chmod(&path, *m) {
+                Ok(()) => Res::Unit,
+                Err(x) => e(x),
+            }
+        }
         Op::Setpgid0 => match sys.setpgid(yash_env::job::Pid(0), yash_env::job::Pid(0)) {
             Ok(()) => Res::Unit,
             Err(x) => e(x),
@@ -1133,6 +1169,20 @@ fn dir_inode() -> Rc<RefCell<Inode>> {
     }))
 }
 
+/// An entry of an initial tree whose content starts with this marker is a
+/// symbolic link to the rest of the content (script streams only: the kernel
+/// model has no symbolic links).
+const LINK: &[u8] = b"\0LINK:";
+
+/// `name_NNN` (three octal digits): the entry is created with these permission
+/// bits (permission scripts; such a tree is run by an unprivileged real shell
+/// that owns it).
+fn mode_suffix(p: &[String]) -> Option<u32> {
+    let name = p.last()?;
+    let (_, digits) = name.rsplit_once('_')?;
+    if digits.len() == 3 { u32::from_str_radix(digits, 8).ok() } else { None }
+}
+
 fn populate_virtual(state: &Rc<RefCell<SystemState>>, root: &str, tree: &InitTree) {
     let mut st = state.borrow_mut();
     st.file_system.save(root, dir_inode()).unwrap();
@@ -1140,12 +1190,27 @@ fn populate_virtual(state: &Rc<RefCell<SystemState>>, root: &str, tree: &InitTre
         let path = format!("{root}/{}", p.join("/"));
         match c {
             None => {
-                st.file_system.save(&path, dir_inode()).unwrap();
+                let d = dir_inode();
+                if let Some(m) = mode_suffix(p) {
+                    d.borrow_mut().permissions = Mode::from_bits_retain(m as _);
+                }
+                st.file_system.save(&path, d).unwrap();
+            }
+            Some(b) if b.starts_with(LINK) => {
+                let target = String::from_utf8_lossy(&b[LINK.len()..]).into_owned();
+                let inode = Inode {
+                    body: FileBody::Symlink { target: yash_env::path::PathBuf::from(target.as_str()) },
+                    permissions: Mode::from_bits_retain(0o777),
+                };
+                st.file_system.save(&path, Rc::new(RefCell::new(inode))).unwrap();
             }
             Some(b) => {
                 let mut inode = Inode::new(b.clone());
                 if p.first().map(|s| s.as_str()) == Some("bin") {
                     inode.permissions = Mode::from_bits_retain(0o755);
+                }
+                if let Some(m) = mode_suffix(p) {
+                    inode.permissions = Mode::from_bits_retain(m as _);
                 }
                 st.file_system.save(&path, Rc::new(RefCell::new(inode))).unwrap();
             }
@@ -1169,6 +1234,9 @@ fn snapshot_virtual_inode(inode: &Rc<RefCell<Inode>>, prefix: &mut Vec<String>, 
             }
         }
         FileBody::Fifo { .. } => out.push((prefix.clone(), Kind::Fifo, 0, vec![])),
+        FileBody::Symlink { target } => {
+            out.push((prefix.clone(), Kind::Other, 0, target.as_unix_str().as_bytes().to_vec()))
+        }
         _ => out.push((prefix.clone(), Kind::Other, 0, vec![])),
     }
 }
@@ -1186,9 +1254,23 @@ fn snapshot_real_at(path: &std::path::Path, prefix: &mut Vec<String>, out: &mut 
     let perm = md.permissions().mode() & 0o777;
     let ft = md.file_type();
     if ft.is_file() {
-        out.push((prefix.clone(), Kind::Reg, perm, std::fs::read(path).unwrap_or_default()));
+        let content = match std::fs::read(path) {
+            Ok(c) => c,
+            Err(_) => {
+                // not readable by its owner: read it with the bits lent for a moment
+                let _ = std::fs::set_permissions(path, std::fs::Permissions::from_mode(0o600));
+                let c = std::fs::read(path).unwrap_or_default();
+                let _ = std::fs::set_permissions(path, std::fs::Permissions::from_mode(perm));
+                c
+            }
+        };
+        out.push((prefix.clone(), Kind::Reg, perm, content));
     } else if ft.is_dir() {
         out.push((prefix.clone(), Kind::Dir, perm, vec![]));
+        let lent = perm & 0o500 != 0o500;
+        if lent {
+            let _ = std::fs::set_permissions(path, std::fs::Permissions::from_mode(0o700));
+        }
         let mut names: Vec<_> = match std::fs::read_dir(path) {
             Ok(rd) => rd.filter_map(|x| x.ok()).map(|x| x.file_name()).collect(),
             Err(_) => vec![],
@@ -1199,6 +1281,13 @@ fn snapshot_real_at(path: &std::path::Path, prefix: &mut Vec<String>, out: &mut 
             snapshot_real_at(&path.join(&n), prefix, out);
             prefix.pop();
         }
+        if lent {
+            let _ = std::fs::set_permissions(path, std::fs::Permissions::from_mode(perm));
+        }
+    } else if ft.is_symlink() {
+        use std::os::unix::ffi::OsStrExt;
+        let target = std::fs::read_link(path).map(|t| t.as_os_str().as_bytes().to_vec()).unwrap_or_default();
+        out.push((prefix.clone(), Kind::Other, 0, target));
     } else {
         use std::os::unix::fs::FileTypeExt;
         out.push((prefix.clone(), if ft.is_fifo() { Kind::Fifo } else { Kind::Other }, 0, vec![]));
@@ -1212,6 +1301,22 @@ fn snapshot_real(root: &str) -> Vec<TreeEntry> {
 }
 
 fn populate_real(root: &str, tree: &InitTree) {
+    populate_real_plain(root, tree);
+    if tree.iter().any(|(p, _)| mode_suffix(p).is_some()) {
+        // a permission tree: the wanted bits, and everything owned by the
+        // unprivileged user the shell will run as
+        for (p, _) in tree.iter().rev() {
+            let path = format!("{root}/{}", p.join("/"));
+            if let Some(m) = mode_suffix(p) {
+                let _ = std::fs::set_permissions(&path, std::fs::Permissions::from_mode(m));
+            }
+            let _ = std::os::unix::fs::lchown(&path, Some(NOBODY), Some(NOBODY));
+        }
+        let _ = std::os::unix::fs::chown(root, Some(NOBODY), Some(NOBODY));
+    }
+}
+
+fn populate_real_plain(root: &str, tree: &InitTree) {
     std::fs::create_dir_all(root).unwrap();
     std::fs::set_permissions(root, std::fs::Permissions::from_mode(0o755)).unwrap();
     for (p, c) in tree {
@@ -1220,6 +1325,9 @@ fn populate_real(root: &str, tree: &InitTree) {
             None => {
                 std::fs::create_dir(&path).unwrap();
                 std::fs::set_permissions(&path, std::fs::Permissions::from_mode(0o755)).unwrap();
+            }
+            Some(b) if b.starts_with(LINK) => {
+                std::os::unix::fs::symlink(String::from_utf8_lossy(&b[LINK.len()..]).as_ref(), &path).unwrap();
             }
             Some(b) => {
                 std::fs::write(&path, b).unwrap();
@@ -1347,6 +1455,7 @@ fn run_sys_real(case: &SysCase, dir: &str) {
     let std: Vec<String> =
         (0..3).map(|i| hex(&std::fs::read(format!("{stdd}/{i}")).unwrap_or_default())).collect();
     sink_line(&format!("S {}", std.join(",")));
+    unlock_tree(std::path::Path::new(dir));
     let _ = std::fs::remove_dir_all(dir);
 }
 
@@ -2331,6 +2440,168 @@ fn gen_sweep_case(seed: u64, idx: usize) -> SysCase {
     SysCase { tree, umask: 0o022, ops, tags: t.hit.clone() }
 }
 
+/// Permission sub-stream: the process is unprivileged and owns every file;
+/// files are created with chosen modes (umask 0), files and directories are
+/// chmod'ed by the harness, and open / directory listing / chdir / stat /
+/// O_CREAT are tried through them.  All paths are spelled from the root and
+/// every descriptor is closed at once, so the only state is the permission bits.
+fn gen_perm_case(seed: u64, k: usize) -> SysCase {
+    let s = |l: &[&str]| -> Vec<String> { l.iter().map(|x| x.to_string()).collect() };
+    let tree: InitTree = vec![
+        (s(&["d"]), None),
+        (s(&["d", "s"]), None),
+        (s(&["e"]), None),
+        (s(&["f"]), Some(b"hello\n".to_vec())),
+        (s(&["d", "h"]), Some(b"abc".to_vec())),
+        (s(&["d", "s", "deep"]), Some(b"xyz".to_vec())),
+    ];
+    let fl = Flags::default();
+    if k == 0 {
+        // the minimal case of the open finding no-permission-checks (F44)
+        return SysCase {
+            tree,
+            umask: 0,
+            ops: vec![
+                Op::DropPriv,
+                Op::Chmod("/f".into(), 0),
+                Op::Open("/f".into(), Acc::Rd, fl, 0),
+                Op::Chmod("/d".into(), 0o311),
+                Op::Readdir("/d".into()),
+                Op::Stat("/d/h".into()),
+            ],
+            tags: vec!["no-permission-checks"],
+        };
+    }
+    let mut r = Rng::new(seed ^ 0x9E51).fork(k as u64);
+    // permission bits of everything below the root ("" = the root itself)
+    let mut perm: BTreeMap<Vec<String>, u32> = BTreeMap::new();
+    let mut is_dir: BTreeSet<Vec<String>> = BTreeSet::new();
+    perm.insert(vec![], 0o755);
+    is_dir.insert(vec![]);
+    for (p, c) in &tree {
+        perm.insert(p.clone(), if c.is_none() { 0o755 } else { 0o644 });
+        if c.is_none() {
+            is_dir.insert(p.clone());
+        }
+    }
+    let mut ops = vec![Op::DropPriv];
+    let mut tags: Vec<&'static str> = vec![];
+    let mut cwd: Vec<String> = vec![];
+    let spell = |p: &Vec<String>| -> String { format!("/{}", p.join("/")) };
+    // every directory on the way to `p` (not `p` itself) can be searched
+    let reachable = |perm: &BTreeMap<Vec<String>, u32>, p: &Vec<String>| -> bool {
+        (0..p.len()).all(|i| perm[&p[..i].to_vec()] & 0o100 != 0)
+    };
+    let n = 4 + r.below(14);
+    for _ in 0..n {
+        let all: Vec<Vec<String>> = perm.keys().cloned().collect();
+        let dirs: Vec<Vec<String>> = all.iter().filter(|p| is_dir.contains(*p)).cloned().collect();
+        let files: Vec<Vec<String>> = all.iter().filter(|p| !is_dir.contains(*p)).cloned().collect();
+        match r.below(12) {
+            0..=2 => {
+                let p = all[r.below(all.len())].clone();
+                if p.is_empty() && r.chance(2, 3) {
+                    continue;
+                }
+                let m = if is_dir.contains(&p) {
+                    *r.pick(&[0u32, 0o100, 0o300, 0o311, 0o400, 0o500, 0o555, 0o600, 0o700, 0o755])
+                } else {
+                    *r.pick(&[0u32, 0o200, 0o400, 0o444, 0o600, 0o644])
+                };
+                if reachable(&perm, &p) {
+                    perm.insert(p.clone(), m);
+                }
+                ops.push(Op::Chmod(spell(&p), m));
+            }
+            3..=5 => {
+                let p = files[r.below(files.len())].clone();
+                let acc = *r.pick(&[Acc::Rd, Acc::Rd, Acc::Wr, Acc::RdWr]);
+                let mut f = fl;
+                if acc != Acc::Rd && r.chance(1, 3) {
+                    f.trunc = true;
+                }
+                if acc != Acc::Rd && r.chance(1, 3) {
+                    f.append = true;
+                }
+                if reachable(&perm, &p) {
+                    let m = perm[&p];
+                    if (acc != Acc::Wr && m & 0o400 == 0) || (acc != Acc::Rd && m & 0o200 == 0) {
+                        // POSIX: EACCES; the simulator opens the file
+                        tags.push("no-permission-checks");
+                    }
+                }
+                ops.push(Op::Open(spell(&p), acc, f, 0));
+                ops.push(Op::Close(3));
+            }
+            6 => {
+                let p = dirs[r.below(dirs.len())].clone();
+                if reachable(&perm, &p) && perm[&p] & 0o400 == 0 {
+                    tags.push("no-permission-checks");
+                }
+                if r.chance(1, 2) {
+                    ops.push(Op::Readdir(spell(&p)));
+                } else {
+                    ops.push(Op::Open(spell(&p), Acc::Rd, Flags { dir: r.chance(1, 2), ..fl }, 0));
+                    ops.push(Op::Close(3));
+                }
+            }
+            7 => {
+                let p = dirs[r.below(dirs.len())].clone();
+                if reachable(&perm, &p) {
+                    if perm[&p] & 0o100 == 0 {
+                        // the simulator only checks the directories on the way
+                        tags.push("no-permission-checks");
+                    } else {
+                        cwd = p.clone();
+                    }
+                }
+                ops.push(Op::Chdir(spell(&p)));
+                ops.push(Op::Getcwd);
+            }
+            8 => {
+                let p = all[r.below(all.len())].clone();
+                ops.push(Op::Stat(spell(&p)));
+            }
+            9 | 10 => {
+                // O_CREAT of a new name with a chosen mode
+                let d = dirs[r.below(dirs.len())].clone();
+                let mut p = d.clone();
+                p.push((*r.pick(&["n1", "n2", "n3"])).to_string());
+                let m = *r.pick(&[0u32, 0o200, 0o400, 0o600, 0o644, 0o666]);
+                let excl = r.chance(1, 4);
+                if !perm.contains_key(&p) {
+                    if reachable(&perm, &p) {
+                        if perm[&d] & 0o200 == 0 {
+                            tags.push("no-permission-checks");
+                        } else {
+                            perm.insert(p.clone(), m);
+                        }
+                    }
+                } else if !excl && reachable(&perm, &p) && perm[&p] & 0o200 == 0 {
+                    tags.push("no-permission-checks");
+                }
+                ops.push(Op::Open(spell(&p), Acc::Wr, Flags { creat: true, excl, ..fl }, m));
+                ops.push(Op::Close(3));
+            }
+            _ => {
+                // a relative path from the current directory
+                let below: Vec<Vec<String>> =
+                    all.iter().filter(|p| p.len() > cwd.len() && p[..cwd.len()] == cwd[..]).cloned().collect();
+                // (the simulator checks the directories above the current one again,
+                // the real OS does not: only when they are all searchable)
+                if below.is_empty() || !(0..cwd.len()).all(|i| perm[&cwd[..i].to_vec()] & 0o100 != 0) {
+                    continue;
+                }
+                let p = below[r.below(below.len())].clone();
+                ops.push(Op::Stat(p[cwd.len()..].join("/")));
+            }
+        }
+    }
+    tags.sort();
+    tags.dedup();
+    SysCase { tree, umask: 0, ops, tags }
+}
+
 fn gen_sys_case(seed: u64, idx: usize, thorough: bool) -> SysCase {
     // every sixth case is an EMFILE sweep
     if idx % 6 == 5 {
@@ -2530,6 +2801,9 @@ fn run_script_virtual(script: &str, tree: &InitTree, root: &str) -> ScriptObs {
 /// `c19 --real-shell SCRIPT`: this process becomes the shell on the real OS.
 fn real_shell_main(script: &str) -> ! {
     use yash_env::system::{Disposition, Sigaction as _, Signals as _};
+    if std::env::var("YV_C19_UNPRIV").is_ok() {
+        drop_privileges();
+    }
     // SAFETY: the only RealSystem of this process
     let system = unsafe { RealSystem::new() };
     system.sigaction(RealSystem::SIGPIPE, Disposition::Default).ok();
@@ -2653,6 +2927,9 @@ fn run_script_real_with(script: &str, tree: &InitTree, dir: &str, shell: Option<
             }
         };
         cmd.arg(script).current_dir(&root).env_clear();
+        if tree.iter().any(|(p, _)| mode_suffix(p).is_some()) {
+            cmd.env("YV_C19_UNPRIV", "1");
+        }
         let c = capture(cmd, Duration::from_secs(limit));
         let Some(st) = c.status else {
             if attempt == 2 {
@@ -2768,7 +3045,7 @@ impl SGen<'_> {
 
     fn stmt(&mut self) -> String {
         loop {
-            let k = self.r.below(64);
+            let k = self.r.below(65);
             let (kind, s): (&'static str, String) = match k {
                 0 => ("redir-out", format!("echo {} > {}", self.word(), self.newfile())),
                 1 => ("redir-out", format!("echo {} > {}; echo {} >> {}", self.word(), "n1", self.word(), "n1")),
@@ -2968,6 +3245,29 @@ impl SGen<'_> {
                     };
                     ("ulimit-emfile", format!("(ulimit -n {n}; {body}); echo $?"))
                 }
+                64 => {
+                    // symbolic links (in the initial tree): the simulator's open() does not
+                    // follow them (open finding open-symlink-not-followed); only at the root
+                    if !self.cwd.is_empty() {
+                        continue;
+                    }
+                    self.tag("open-symlink-not-followed");
+                    ("symlink", (*self.r.pick(&[
+                        "cat < lnk_f; echo $?",
+                        "echo via-link >> lnk_f; echo $?; cat < f",
+                        "echo new > lnk_f; echo $?; cat < f",
+                        "cat < lnk_d/h; echo $?",
+                        "(cd lnk_d; pwd; pwd -P; cat < h); echo $?",
+                        "echo lnk_d/*; echo lnk_*",
+                        "cat < lnk_dangling; echo $?; echo x > lnk_dangling; echo $?; cat < nowhere",
+                        "set -C; echo x > lnk_f; echo $?; set +C; cat < f",
+                        "cat < lnk_loop1; echo $?",
+                        "cat < d/lnk_up/f; echo $?; cat < e/lnk_k",
+                        "exec 3< lnk_f; read l <&3; echo \"$l\"; exec 3<&-",
+                        "while read l; do echo \"<$l>\"; done < lnk_d/h; echo $?",
+                        "(cd -P lnk_d; pwd); cd d/lnk_up; pwd; pwd -P; cd -P .; pwd",
+                    ])).to_string())
+                }
                 63 => ("kill-group", (*self.r.pick(&[
                     // the shell leads its process group on both sides; only signals
                     // whose numbers POSIX fixes
@@ -3039,6 +3339,20 @@ fn tree_for(script: &str) -> InitTree {
     let mut t = script_tree();
     if !script.contains("big") {
         t.retain(|(p, _)| p != &vec!["big".to_string()]);
+    }
+    if script.contains("lnk_") {
+        let link = |path: &[&str], target: &str| -> (Vec<String>, Option<Vec<u8>>) {
+            let mut c = LINK.to_vec();
+            c.extend_from_slice(target.as_bytes());
+            (path.iter().map(|x| x.to_string()).collect(), Some(c))
+        };
+        t.push(link(&["lnk_f"], "f"));
+        t.push(link(&["lnk_d"], "d"));
+        t.push(link(&["lnk_dangling"], "nowhere"));
+        t.push(link(&["lnk_loop1"], "lnk_loop2"));
+        t.push(link(&["lnk_loop2"], "lnk_loop1"));
+        t.push(link(&["d", "lnk_up"], ".."));
+        t.push(link(&["e", "lnk_k"], "../e/k"));
     }
     t
 }
@@ -3157,6 +3471,60 @@ fn emit_script3(w: &mut CasesWriter, case: &ScriptCase, v: &ScriptObs, r: &Scrip
     w.push(&term, &json, &case.tags, key);
 }
 
+/// Permission scripts: run by an unprivileged real shell that owns the tree.
+fn gen_perm_script(seed: u64, idx: usize) -> ScriptCase {
+    let s = |l: &[&str]| -> Vec<String> { l.iter().map(|x| x.to_string()).collect() };
+    let tree: InitTree = vec![
+        (s(&["d"]), None),
+        (s(&["f"]), Some(b"hello world\n".to_vec())),
+        (s(&["ro_555"]), None),
+        (s(&["ro_555", "in"]), Some(b"inside\n".to_vec())),
+        (s(&["nolist_311"]), None),
+        (s(&["nolist_311", "f"]), Some(b"listed?\n".to_vec())),
+        (s(&["nosearch_600"]), None),
+        (s(&["nosearch_600", "f"]), Some(b"unreachable\n".to_vec())),
+        (s(&["secret_000"]), Some(b"secret\n".to_vec())),
+        (s(&["rdonly_444"]), Some(b"read me\n".to_vec())),
+        (s(&["wronly_200"]), Some(b"write me\n".to_vec())),
+    ];
+    let mut r = Rng::new(seed ^ 0x9E52).fork(idx as u64);
+    // (statement, is it in the class of the open finding no-permission-checks?)
+    let menu: [(&str, bool); 16] = [
+        ("cat < secret_000; echo $?", true),
+        ("echo x >> rdonly_444; echo $?", true),
+        ("cat < wronly_200; echo $?", true),
+        ("echo x > wronly_200; echo $?", false),
+        ("cat < rdonly_444; echo $?", false),
+        ("echo nolist_311/*", true),
+        ("cat < nolist_311/f; echo $?", false),
+        ("cat < nosearch_600/f; echo $?", false),
+        ("cd nosearch_600; echo $?; pwd", true),
+        ("(cd nolist_311 && pwd && cat < f)", false),
+        ("echo new > ro_555/n; echo $?", true),
+        ("echo x >> ro_555/in; echo $?; cat < ro_555/in", false),
+        ("(umask 777; echo x > mk0; cat < mk0; echo $?)", true),
+        ("(umask 377; echo x > mk4; echo y >> mk4; echo $?); cat < mk4", true),
+        ("(cd ro_555; echo *; cat < in; echo y > made; echo $?)", true),
+        ("exec 3<> rdonly_444; echo $?", true),
+    ];
+    let n = if idx == 0 { 1 } else { 2 + r.below(5) };
+    let mut lines = vec![];
+    let mut tagged = false;
+    for k in 0..n {
+        let (st, f44) = if idx == 0 { menu[0] } else { menu[r.below(menu.len())] };
+        let _ = k;
+        lines.push(st.to_string());
+        tagged |= f44;
+    }
+    lines.push("echo end=$?".to_string());
+    ScriptCase {
+        tree,
+        script: lines.join("\n"),
+        tags: if tagged { vec!["no-permission-checks"] } else { vec![] },
+        kinds: vec!["perm-script"],
+    }
+}
+
 fn corpus_scripts() -> Vec<ScriptCase> {
     let mk = |s: &str| ScriptCase { tree: tree_for(s), script: s.to_string(), tags: vec![], kinds: vec!["corpus"] };
     let mk_tagged = |tag: &'static str, s: &str| ScriptCase {
@@ -3166,6 +3534,16 @@ fn corpus_scripts() -> Vec<ScriptCase> {
         kinds: vec!["corpus"],
     };
     vec![
+        // known deviation of the simulator (F41): open() does not follow symbolic links
+        mk_tagged("open-symlink-not-followed", "cat < lnk_f; echo $?"),
+        // ... nor in an intermediate component,
+        mk_tagged("open-symlink-not-followed", "cat < lnk_d/h; echo $?"),
+        // ... nor when a directory is listed through a link,
+        mk_tagged("open-symlink-not-followed", "echo lnk_d/*"),
+        // ... getcwd after chdir through a link gives the link's spelling,
+        mk_tagged("open-symlink-not-followed", "(cd lnk_d; pwd -P)"),
+        // ... and a loop of links is not ELOOP
+        mk_tagged("open-symlink-not-followed", "cat < lnk_loop1; echo $?"),
         // known deviation of the simulator (F28): the killed shell runs on
         mk_tagged("killed-process-keeps-running", "(kill -s TERM $$); echo x > n1"),
         // F6: the simulated fork did not copy umask / cwd
@@ -3485,8 +3863,23 @@ fn has_dots(p: &str) -> bool {
     p.split('/').any(|c| c == "." || c == "..") || p.contains("//") || p.ends_with('/')
 }
 
+/// Number of generated (privileged) sequences, and of permission sequences.
+fn n_sys_gen(thorough: bool) -> usize {
+    if thorough { 12000 } else { 600 }
+}
+fn n_sys_perm(thorough: bool) -> usize {
+    if thorough { 1500 } else { 125 }
+}
+/// First index of the permission sub-stream (run by unprivileged workers).
+fn perm_base(thorough: bool) -> usize {
+    corpus_sys().len() + n_sys_gen(thorough)
+}
+
 fn sys_case(seed: u64, idx: usize, thorough: bool) -> SysCase {
     let c = corpus_sys();
+    if idx >= perm_base(thorough) {
+        return gen_perm_case(seed, idx - perm_base(thorough));
+    }
     if idx < c.len() {
         let mut case = c[idx].clone();
         if case.tags.iter().any(|tag| unregistered(tag)) {
@@ -3500,13 +3893,47 @@ fn sys_case(seed: u64, idx: usize, thorough: bool) -> SysCase {
     }
 }
 
-/// `c19 --real-sys-worker SEED TIER FROM TO RUNDIR`
+const NOBODY: u32 = 65534;
+
+/// The process becomes an ordinary user for good (no supplementary groups).
+fn drop_privileges() {
+    unsafe {
+        if libc::geteuid() != 0 {
+            return;
+        }
+        let ok = libc::setgroups(0, std::ptr::null()) == 0
+            && libc::setresgid(NOBODY, NOBODY, NOBODY) == 0
+            && libc::setresuid(NOBODY, NOBODY, NOBODY) == 0;
+        if !ok || libc::geteuid() == 0 || libc::setuid(0) == 0 {
+            harness_error("cannot drop privileges on the real side");
+        }
+    }
+}
+
+/// Makes everything below `path` removable / readable by its owner again.
+fn unlock_tree(path: &std::path::Path) {
+    if let Ok(md) = std::fs::symlink_metadata(path) {
+        if md.is_dir() {
+            let _ = std::fs::set_permissions(path, std::fs::Permissions::from_mode(0o700));
+            if let Ok(rd) = std::fs::read_dir(path) {
+                for e in rd.flatten() {
+                    unlock_tree(&e.path());
+                }
+            }
+        }
+    }
+}
+
+/// `c19 --real-sys-worker SEED TIER FROM TO RUNDIR [unpriv]`
 fn real_sys_worker(a: &[String]) -> ! {
     let seed: u64 = a[0].parse().unwrap();
     let thorough = a[1] != "quick";
     let from: usize = a[2].parse().unwrap();
     let to: usize = a[3].parse().unwrap();
     let run = &a[4];
+    if a.get(5).map(|s| s.as_str()) == Some("unpriv") {
+        drop_privileges();
+    }
     let sys = unsafe { RealSystem::new() };
     // the result channel: our standard output, moved out of the way
     let sink = sys.dup(Fd(1), Fd(SINK_FD), FdFlag::CloseOnExec.into()).unwrap();
@@ -3561,7 +3988,10 @@ fn parse_worker_output(text: &str, ops_of: &dyn Fn(usize) -> Vec<Op>) -> BTreeMa
 fn real_sys_all(args: &Args, n: usize, run: &str) -> BTreeMap<usize, SysObs> {
     let exe = std::env::current_exe().unwrap();
     let chunk = 25;
-    let chunks: Vec<(usize, usize)> = (0..n).step_by(chunk).map(|a| (a, (a + chunk).min(n))).collect();
+    // the permission sub-stream has workers of its own (they drop their privileges)
+    let pb = perm_base(args.thorough()).min(n);
+    let mut chunks: Vec<(usize, usize)> = (0..pb).step_by(chunk).map(|a| (a, (a + chunk).min(pb))).collect();
+    chunks.extend((pb..n).step_by(chunk).map(|a| (a, (a + chunk).min(n))));
     let par = std::thread::available_parallelism().map(|x| x.get()).unwrap_or(4).min(16);
     let next = std::sync::Arc::new(std::sync::Mutex::new(0usize));
     let results = std::sync::Arc::new(std::sync::Mutex::new(String::new()));
@@ -3594,6 +4024,9 @@ fn real_sys_all(args: &Args, n: usize, run: &str) -> BTreeMap<usize, SysObs> {
                     .arg(b.to_string())
                     .arg(&run)
                     .env_clear();
+                if a >= pb {
+                    cmd.arg("unpriv");
+                }
                 // the worker regenerates the sequences: same generator configuration
                 for k in ["YV_C19_SCRATCH", "YV_C19_PROPS"] {
                     if let Ok(v) = std::env::var(k) {
@@ -3795,9 +4228,11 @@ fn main() {
     let mut w = CasesWriter::new(&args, "Yv.C19.Run", if args.thorough() { 80 } else { 74 });
     let run = format!("{}/{}/{}-{}", scratch_base(), args.seed, args.tier, std::process::id());
     std::fs::create_dir_all(&run).unwrap();
+    // (the unprivileged workers of the permission sub-stream create their directories in it)
+    let _ = std::fs::set_permissions(&run, std::fs::Permissions::from_mode(0o777));
 
     // ---- stream 1 ----
-    let n_sys = corpus_sys().len() + args.scale(600, 12000);
+    let n_sys = perm_base(args.thorough()) + n_sys_perm(args.thorough());
     let real = real_sys_all(&args, n_sys, &run);
     for idx in 0..n_sys {
         let case = sys_case(args.seed, idx, args.thorough());
@@ -3819,6 +4254,16 @@ fn main() {
     for (i, case) in cases.iter().enumerate() {
         let v = run_script_virtual(&case.script, &case.tree, &format!("{run}/s{i}/root"));
         let r = settle_real(&mut w, "script", i, case, &v, &reals[i], &format!("{run}/s{i}"), None);
+        emit_script(&mut w, case, &v, &r);
+    }
+
+    // ---- stream 2, permission sub-stream (unprivileged real shell) ----
+    let n_ps = args.scale(60, 600);
+    let casesp: Vec<ScriptCase> = (0..n_ps).map(|i| gen_perm_script(args.seed, i)).collect();
+    let realsp = real_scripts_all(&casesp, &format!("{run}/p"), None);
+    for (i, case) in casesp.iter().enumerate() {
+        let v = run_script_virtual(&case.script, &case.tree, &format!("{run}/p/s{i}/root"));
+        let r = settle_real(&mut w, "perm-script", i, case, &v, &realsp[i], &format!("{run}/p/s{i}"), None);
         emit_script(&mut w, case, &v, &r);
     }
 
